@@ -414,8 +414,7 @@ KLASS = dict([(nm, 'try_value') for nm in TRY_VALUES] + [('try_back', 'try_back'
 
 def deco(name):
     import pyg_base
-    from pyg_base._loop import pd2np
-    from pyg_base._cache import cache
+    from pyg_base import pd2np, cache
     if name == 'loop':
         return call('loop(list, tuple, dict)', pyg_base.loop, list, tuple, dict)
     if name == 'pd2np':
